@@ -101,11 +101,59 @@ class Acc:
         return strict, loose
 
 
+def rush_scan(A, real_T):
+    """Reference model of the RUSH promotion rule (shared rung system): rungs are scanned from the top, within a rung the
+    unpromoted entries best first; a threshold candidate (trial id < num_threshold_candidates) raises the rung's bar to
+    its metric and is promotable, any other entry is promotable only if it meets the bar; the first promotable entry is
+    promoted if it also meets the quantile.  Returns (trial, level) or None; updates A.thr.  A.rush_exact is switched off
+    when the outcome is not determined (NaN metrics, bar within round-off)."""
+    better = (lambda a, b: a <= b) if A.mode == "min" else (lambda a, b: a >= b)
+    for r in sorted(A.levels, reverse=True):
+        lst = A.rungs.get((0, r), [])
+        if len(lst) < 2:
+            continue
+        vals = np.array([e["metric"] for e in lst], dtype=float)
+        if not np.all(np.isfinite(vals)):
+            A.rush_exact = False
+            return None
+        q = A.q_of[r]
+        cut = float(np.quantile(vals, q if A.mode == "min" else 1.0 - q))
+        found = None
+        for e in sorted(lst, key=lambda e: e["metric"], reverse=A.mode == "max"):
+            if e["promoted"]:
+                continue
+            m = e["metric"]
+            cur = A.thr.get(r)
+            if e["trial"] < A.nthr:
+                A.thr[r] = m if cur is None or better(m, cur) else cur
+                found = e
+                break
+            if cur is None or better(m, cur):
+                found = e
+                break
+            if band(m, cur):
+                A.rush_exact = False
+                return None
+        if found is None:
+            continue
+        m = found["metric"]
+        if band(m, cut):
+            if real_T == found["trial"]:
+                return found["trial"], r
+            continue
+        if better(m, cut):
+            return found["trial"], r
+    return None
+
+
 def check(tr):
     scen = tr.scen
     if not is_promotion(scen):
         return []
     A = Acc(tr)
+    A.nthr = scen["scheduler"].get("num_threshold_candidates", 0)
+    A.thr = {}
+    A.rush_exact = A.rush and not A.per_bracket and not scen["script"].get("ties")
     pending_new = None  # (seq of suggest, cap at that time) waiting for on_trial_add to learn the bracket
     last_total_cost = {}
     rets = {e["s"]: e for e in tr.events if e["k"] == "s.ret"}
@@ -126,6 +174,16 @@ def check(tr):
         t = c["trial"]
         if m == "suggest":
             ret = c["ret"]
+            if A.rush_exact:
+                real_T = ret["ckpt"] if (ret is not None and not ret["new"]) else None
+                exp = rush_scan(A, real_T)
+                if A.rush_exact:
+                    A.probes["probe.rush_scans"] = A.probes.get("probe.rush_scans", 0) + 1
+                    if (exp[0] if exp else None) != real_T:
+                        A.bad("R3.rush_rule", "RUSH promotion: scheduler %s, the documented rule gives %s (bars %s)" % (
+                            "resumes trial %s" % real_T if real_T is not None else "starts a new trial",
+                            "promotion of trial %s from rung %d" % exp if exp else "no promotion", dict(sorted(A.thr.items()))), c["s0"])
+                        A.rush_exact = False
             if ret is None:
                 continue
             if ret["new"]:
